@@ -2,6 +2,7 @@
 //! protocol line per case (see common.rs); the extracted Coq oracle reads them.
 mod common;
 mod subtags;
+mod likely;
 
 use common::*;
 
@@ -29,6 +30,7 @@ fn main() {
             let mut rng = Rng(seed ^ 0x5eed_0000_0000_0000);
             match suite {
                 "subtags" => subtags::run(&mut out, tier, &mut rng),
+                "likely" => likely::run(&mut out, tier, &mut rng),
                 _ => {
                     eprintln!("unknown suite {}", suite);
                     std::process::exit(2);
@@ -74,6 +76,8 @@ fn unhex(s: &str) -> Vec<u8> {
 fn replay_one(out: &mut Out, op: &str, a: &[Vec<u8>]) {
     let refs: Vec<&[u8]> = a.iter().map(|v| v.as_slice()).collect();
     let a0: &[u8] = refs.get(0).copied().unwrap_or(&[]);
+    let a1: &[u8] = refs.get(1).copied().unwrap_or(&[]);
+    let a2: &[u8] = refs.get(2).copied().unwrap_or(&[]);
     match op {
         "lang" => out.case(op, &refs, || subtags::lang(a0)),
         "script" => out.case(op, &refs, || subtags::script(a0)),
@@ -83,6 +87,14 @@ fn replay_one(out: &mut Out, op: &str, a: &[Vec<u8>]) {
         "script_raw" => out.case(op, &refs, || subtags::script_raw(a0)),
         "region_raw" => out.case(op, &refs, || subtags::region_raw(a0)),
         "variant_raw" => out.case(op, &refs, || subtags::variant_raw(a0)),
+        "maximize" => out.case(op, &refs, || likely::maximize(a0, a1, a2)),
+        "minimize" => out.case(op, &refs, || likely::minimize(a0, a1, a2)),
+        "li_maximize" => out.case(op, &refs, || likely::li_change(a0, true)),
+        "li_minimize" => out.case(op, &refs, || likely::li_change(a0, false)),
+        "direction_likely" | "direction_plain" => out.case(likely::DIR_OP, &refs, || likely::direction(a0)),
+        "table_row" => out.case(op, &refs, || likely::table_row(a0, std::str::from_utf8(a1).ok().and_then(|s| s.parse().ok()).unwrap_or(0))),
+        "table_len" => out.case(op, &refs, || likely::table_len(a0)),
+        "cldr_version" => out.case(op, &refs, || likely::cldr_version()),
         _ => out.case(op, &refs, || "UNKNOWN-OP".to_string()),
     }
 }
